@@ -158,10 +158,11 @@ impl<T: BitRead> PackedRead for T {
         lower_bound: i64,
         upper_bound: i64,
     ) -> Result<i64, Error> {
-        let range = upper_bound - lower_bound;
+        // the difference of two i64 does not always fit into an i64
+        let range = (upper_bound as i128 - lower_bound as i128).max(0) as u64;
         if range > 0 {
-            Ok(lower_bound
-                + self.read_non_negative_binary_integer(None, Some(range as u64))? as i64)
+            let offset = self.read_non_negative_binary_integer(None, Some(range))?;
+            Ok((lower_bound as i128 + offset as i128) as i64)
         } else {
             Ok(lower_bound)
         }
@@ -472,19 +473,20 @@ impl<T: BitWrite> PackedWrite for T {
         upper_bound: i64,
         value: i64,
     ) -> Result<(), Error> {
-        let range = upper_bound - lower_bound;
-        if range > 0 {
-            if value < lower_bound || value > upper_bound {
-                Err(ErrorKind::ValueNotInRange(value, lower_bound, upper_bound).into())
-            } else {
+        if value < lower_bound || value > upper_bound {
+            Err(ErrorKind::ValueNotInRange(value, lower_bound, upper_bound).into())
+        } else {
+            // the difference of two i64 does not always fit into an i64
+            let range = (upper_bound as i128 - lower_bound as i128) as u64;
+            if range > 0 {
                 self.write_non_negative_binary_integer(
                     None,
-                    Some(range as u64),
-                    (value - lower_bound) as u64,
+                    Some(range),
+                    (value as i128 - lower_bound as i128) as u64,
                 )
+            } else {
+                Ok(())
             }
-        } else {
-            Ok(())
         }
     }
 
